@@ -168,6 +168,7 @@ def verify_lemma(prog, reg, lem, mode='int'):
     eng = Exec(prog, reg, num_sort=(I if mode == 'int' else REAL), pruning=False)
     rep = FunctionReport('lemma:' + lem['name'])
     eng.cur = None
+    eng.mod_lemma = not lem.get('engine_lemma')
     eng.top_env = {}
     eng.pre_state = eng.S.copy()
     env = {}
